@@ -541,8 +541,9 @@ func parseRule(node *yaml.Node, offsetLine, offsetColumn int, contentLines []str
 func unpackNodes(node *yaml.Node) []*yaml.Node {
 	nodes := make([]*yaml.Node, 0, len(node.Content))
 	var isMerge bool
-	for _, part := range node.Content {
-		if part.ShortTag() == mergeTag && part.Value == "<<" {
+	for i, part := range node.Content {
+		// Only a key can be a merge key, `alert: <<` is a string.
+		if part.ShortTag() == mergeTag && part.Value == "<<" && node.Kind == yaml.MappingNode && i%2 == 0 {
 			isMerge = true
 		}
 
